@@ -17,6 +17,13 @@ from dataclasses import dataclass, field
 REPO = os.environ.get("VERIF_REPO", "/repo")
 
 
+# decorators whose effect is accounted for: the first group changes only how the function is looked up (kind), the second
+# is dropped (no semantic effect on the value computed), the third memoises calls (modelled by the interpreter).  A function
+# carrying ANY other decorator is outside the verified subset: calling it makes the obligation `unsupported`.
+_DROPPED = {"final", "abstractmethod", "no_grad", "override", "dataclass", "overload", "wraps"}
+_MEMO = {"cache", "lru_cache"}
+
+
 @dataclass
 class FuncInfo:
     name: str
@@ -24,6 +31,18 @@ class FuncInfo:
     module: "ModuleInfo"
     cls: "ClassInfo | None" = None
     kind: str = "function"  # function | method | property | staticmethod | classmethod
+
+    @property
+    def decorator_names(self):
+        return [_deco_name(d) for d in self.node.decorator_list]
+
+    @property
+    def memoised(self) -> bool:
+        return any(n in _MEMO for n in self.decorator_names)
+
+    @property
+    def unknown_decorators(self):
+        return [n for n in self.decorator_names if n not in _DECOS and n not in _DROPPED and n not in _MEMO and n != "setter"]
 
     @property
     def qualname(self) -> str:
